@@ -4,14 +4,14 @@ From Coq Require Import List Arith ZArith Bool Lia.
 Import ListNotations.
 From Acts.Gen Require Import GenState.
 From Acts.Model Require Import Engine Oracles.
-From Acts.Proofs Require Import EngineBasics TimeoutInv.
+From Acts.Proofs Require Import EngineBasics TimeoutInv ReviveInv LogInv.
 
 Definition legal_ev (x : ev) : bool :=
   match x with ETrans _ o n _ _ => legal o n || revive o n | _ => true end.
 Definition P (e : eng) : Prop := forallb legal_ev (trace e) = true.
 (* an error is only ever stored together with the error state *)
 Definition Q (e : eng) : Prop := forall t, t_err (tk e t) <> None -> st e t = SError.
-Definition Inv (e : eng) : Prop := P e /\ Q e /\ W e /\ T e.
+Definition Inv (e : eng) : Prop := P e /\ Q e /\ W e /\ T e /\ R e /\ L e.
 (* inside one engine operation, after the initialisation phase, no failure is pending *)
 Definition J (e : eng) : Prop := Inv e /\ exn e = false /\ QR e.
 
@@ -25,11 +25,13 @@ Qed.
 
 Lemma Inv_ext e e' : ext e e' -> Inv e -> Inv e'.
 Proof.
-  intros X (HP & HQ & HW & HT). split; [|split; [|split]].
-  - destruct X as (_ & (l & Tl & F) & _). unfold P. rewrite Tl, forallb_app, HP. simpl. now apply forallb_nontrans.
+  intros X (HP & HQ & HW & HT & HR & HL). split; [|split; [|split; [|split; [|split]]]].
+  - destruct X as (_ & (l & Tl & F & _) & _). unfold P. rewrite Tl, forallb_app, HP. simpl. now apply forallb_nontrans.
   - intros t Ht. rewrite (ext_st _ _ t X). apply HQ. now rewrite <- (ext_err _ _ t X).
   - eapply W_ext; eauto.
   - eapply T_ext; eauto.
+  - eapply R_ext; eauto.
+  - eapply L_ext; eauto.
 Qed.
 Definition xext (e e' : eng) : Prop := ext e e' /\ exn e' = exn e.
 Lemma J_xext e e' : xext e e' -> J e -> J e'.
@@ -40,21 +42,38 @@ Proof. destruct o, n; simpl; intros; try discriminate; reflexivity. Qed.
 Lemma is_eq a b : is a b = true -> a = b.
 Proof. apply internal_TaskState_dec_bl. Qed.
 
-Lemma Inv_set_state site e i s : Inv e -> legal (st e i) s || revive (st e i) s = true -> Inv (set_state site e i s).
+Lemma Inv_set_state_gen site e i s : Inv e -> legal (st e i) s || revive (st e i) s = true ->
+  (revive (st e i) s = false \/ (t_catch_done (tk e i) = true /\ ~ In i (revivals (trace e)))) -> Inv (set_state site e i s).
 Proof.
-  intros (HP & HQ & HW & HT) L. split; [|split; [|split]].
-  - unfold P. rewrite trace_set_state, forallb_app, HP. simpl. now rewrite L.
+  intros (HP & HQ & HW & HT & HR & HL) L Hrev. split; [|split; [|split; [|split; [|split]]]].
+  - destruct (Nat.lt_ge_cases i (length (tasks e))) as [Hlt | Hge]; [|now rewrite (set_state_oob _ _ _ _ Hge)].
+    unfold P. rewrite trace_set_state, forallb_app, HP by assumption. simpl. now rewrite L.
   - intros t Ht. unfold st in *. rewrite tk_set_state in *.
     destruct (Nat.eqb t i && Nat.ltb i (length (tasks e))) eqn:E; [|now apply HQ].
     simpl in *. destruct (is s SError) eqn:ES; [now apply is_eq in ES | congruence].
   - now apply W_set_state.
   - now apply T_set_state.
+  - destruct Hrev as [Hn | [Hcd Hnew]]; [now apply R_set_state | now apply R_set_state_revive].
+  - now apply L_set_state.
 Qed.
+(* every write but the revival: a legal forward transition *)
+Lemma Inv_set_state site e i s : Inv e -> legal (st e i) s = true -> Inv (set_state site e i s).
+Proof. intros H L. apply Inv_set_state_gen; auto; [now rewrite L | left; now apply legal_not_revive]. Qed.
+(* the revival: only for a task that carries the mark and was never revived before *)
+Lemma Inv_revive site e i : Inv e -> st e i = SError -> t_catch_done (tk e i) = true -> ~ In i (revivals (trace e)) ->
+  Inv (set_state site e i SRunning).
+Proof. intros H Hs Hcd Hnew. apply Inv_set_state_gen; auto. now rewrite Hs. Qed.
 Lemma exn_set_state site e i s : exn (set_state site e i s) = exn e.
-Proof. unfold set_state. destruct (_ && _); reflexivity. Qed.
-Lemma J_set_state site e i s : J e -> legal (st e i) s || revive (st e i) s = true -> J (set_state site e i s).
+Proof. unfold set_state. destruct (negb _); [reflexivity|]. destruct (_ && _); reflexivity. Qed.
+Lemma J_set_state site e i s : J e -> legal (st e i) s = true -> J (set_state site e i s).
 Proof.
   intros (HI & HX & HQ) L. split; [now apply Inv_set_state | split; [now rewrite exn_set_state|]].
+  intros j Hj. rewrite queue_set_state in Hj. rewrite ntasks_set_state. now apply HQ.
+Qed.
+Lemma J_revive site e i : J e -> st e i = SError -> t_catch_done (tk e i) = true -> ~ In i (revivals (trace e)) ->
+  J (set_state site e i SRunning).
+Proof.
+  intros (HI & HX & HQ) Hs Hcd Hnew. split; [now apply Inv_revive | split; [now rewrite exn_set_state|]].
   intros j Hj. rewrite queue_set_state in Hj. rewrite ntasks_set_state. now apply HQ.
 Qed.
 
@@ -66,16 +85,21 @@ Proof.
 Qed.
 Lemma Inv_set_err site e i c : Inv e -> legal (st e i) SError = true -> Inv (set_err site e i c).
 Proof.
-  intros (HP & HQ & HW & HT) L. unfold set_err. split; [|split; [|split]].
-  - unfold P. rewrite trace_set_state.
-    assert (Hs : st (tmod e i (fun t => tset_err t (Some c))) i = st e i).
-    { unfold st. rewrite tk_tmod. destruct (_ && _); reflexivity. }
+  intros (HP & HQ & HW & HT & HR & HL) L. unfold set_err.
+  assert (Hs : st (tmod e i (fun t => tset_err t (Some c))) i = st e i).
+  { unfold st. rewrite tk_tmod. destruct (_ && _); reflexivity. }
+  split; [|split; [|split; [|split; [|split]]]].
+  - destruct (Nat.lt_ge_cases i (length (tasks (tmod e i (fun t => tset_err t (Some c)))))) as [Hlt | Hge];
+      [|rewrite (set_state_oob _ _ _ _ Hge); exact HP].
+    unfold P. rewrite trace_set_state by assumption.
     rewrite Hs. cbn [trace tmod with_tasks]. rewrite forallb_app, HP. simpl. now rewrite L.
   - intros t Ht. unfold st in *. rewrite tk_set_state in *.
     destruct (Nat.eqb t i && Nat.ltb i (length (tasks (tmod e i (fun t0 => tset_err t0 (Some c)))))) eqn:E; [reflexivity|].
     rewrite tk_tmod in *. unfold tmod in E; cbn [tasks with_tasks] in E. rewrite upd_length in E. rewrite E in *. now apply HQ.
   - apply W_set_state. apply W_tmod; auto.
   - apply T_set_state. apply T_tmod; auto.
+  - apply R_set_state; [apply R_tmod; auto|]. rewrite Hs. now apply legal_not_revive.
+  - apply L_set_state. apply L_tmod; auto.
 Qed.
 Lemma exn_set_err site e i c : exn (set_err site e i c) = exn e.
 Proof. unfold set_err. now rewrite exn_set_state. Qed.
@@ -99,8 +123,13 @@ Lemma exn_sched_nodes e l i : exn (sched_nodes e l i) = exn e.
 Proof. unfold sched_nodes. revert e; induction l as [|c l IH]; intros e; simpl; auto. now rewrite IH. Qed.
 Lemma xext_sched_nodes e l i : i < ntasks e -> xext e (sched_nodes e l i).
 Proof. intros H. split; [now apply ext_sched_nodes | apply exn_sched_nodes]. Qed.
-Lemma xext_add_ev e x : is_trans x = false -> xext e (add_ev e x).
-Proof. intros H. split; [now apply ext_add_ev | reflexivity]. Qed.
+Lemma xext_add_ev e x : is_trans x = false -> msg_ok e x = true -> xext e (add_ev e x).
+Proof. intros H M. split; [now apply ext_add_ev | reflexivity]. Qed.
+Lemma msg_allowed_ok e i a b : msg_allowed e i = true -> msg_ok e (EMsg i (st e i) a b) = true.
+Proof.
+  unfold msg_allowed, msg_ok. intros H. apply andb_true_iff in H as [H _]. apply andb_true_iff in H as [H1 H2].
+  assert (E : is (st e i) (st e i) = true) by (destruct (st e i); reflexivity). now rewrite E, H1, H2.
+Qed.
 Lemma xext_upsert e i : xext e (upsert e i). Proof. split; [apply ext_upsert | reflexivity]. Qed.
 Lemma xext_persist e : xext e (persist e). Proof. split; [apply ext_persist | reflexivity]. Qed.
 Lemma xext_tmod e i f : keeps f -> xext e (tmod e i f). Proof. intros K. split; [now apply ext_tmod | reflexivity]. Qed.
@@ -176,7 +205,7 @@ Qed.
 
 (* ---- kind_init: from ready (or a dangling index) ---- *)
 Definition fresh_state (s : TaskState) : Prop := s = SReady \/ s = SNone.
-Lemma legal_fresh o n : fresh_state o -> (n = SSkipped \/ n = SPending \/ n = SInterrupt \/ n = SReady) -> legal o n || revive o n = true.
+Lemma legal_fresh o n : fresh_state o -> (n = SSkipped \/ n = SPending \/ n = SInterrupt \/ n = SReady) -> legal o n = true.
 Proof. intros [-> | ->] [-> | [-> | [-> | ->]]]; reflexivity. Qed.
 
 (* kind_init either fails (the condition throws) leaving the task's state alone, or keeps J *)
@@ -304,7 +333,7 @@ Proof.
         + destruct (is (st e1 j) SError) eqn:E; [|apply xext_refl].
           apply is_eq in E. congruence. }
     assert (X2' : xext e e2v) by (eapply xext_trans; eauto).
-    destruct (msg_allowed e2v j); [eapply xext_trans; [exact X2' | now apply xext_add_ev] | exact X2']. }
+    destruct (msg_allowed e2v j) eqn:Ema; [eapply xext_trans; [exact X2' | apply xext_add_ev; [reflexivity | now apply msg_allowed_ok]] | exact X2']. }
   destruct k; try exact X3.
   destruct (is_completed (st e3v j)); [|exact X3].
   eapply xext_trans; [exact X3|]. eapply xext_trans; [apply xext_with_pstate | now apply xext_add_ev].
@@ -321,7 +350,7 @@ Lemma G_xext e e' : J e -> xext e e' -> G e e'.
 Proof. intros H X. split; [eapply J_xext; eauto | apply (ext_len _ _ (proj1 X))]. Qed.
 Lemma G_persist e e' : G e e' -> G e (persist e').
 Proof. intros H. eapply G_trans; [exact H|]. apply G_xext; [apply H | apply xext_persist]. Qed.
-Lemma G_set_state site e i s : J e -> legal (st e i) s || revive (st e i) s = true -> G e (set_state site e i s).
+Lemma G_set_state site e i s : J e -> legal (st e i) s = true -> G e (set_state site e i s).
 Proof. intros H L. split; [now apply J_set_state | rewrite ntasks_set_state; lia]. Qed.
 Lemma G_set_err site e i c : J e -> legal (st e i) SError = true -> G e (set_err site e i c).
 Proof. intros H L. split; [now apply J_set_err | unfold set_err; rewrite ntasks_set_state, ntasks_tmod; lia]. Qed.
@@ -349,11 +378,13 @@ Proof.
 Qed.
 Lemma J_set_catch_done e i : J e -> J (set_catch_done e i).
 Proof.
-  intros ((HP & HQ & HW & HT) & HX & HQR). split; [split; [|split; [|split]]|split].
+  intros ((HP & HQ & HW & HT & HR & HL) & HX & HQR). split; [split; [|split; [|split; [|split; [|split]]]]|split].
   - exact HP.
   - intros t Ht. destruct (st_set_catch_done e i t) as [-> E]. apply HQ. now rewrite <- E.
   - apply W_tmod; auto.
   - apply T_tmod; auto.
+  - apply R_tmod; auto.
+  - apply L_tmod; auto.
   - exact HX.
   - intros j Hj. unfold set_catch_done. rewrite ntasks_tmod. now apply HQR.
 Qed.
@@ -410,7 +441,7 @@ Proof.
             (* the catches *)
             apply (G_fold _ _ (fun _ => True)); [|auto|exact G11].
             intros ee c _ Gee. destruct (t_err (tk ee i)) as [code|] eqn:Eerr; [|exact Gee].
-            destruct (t_catch_done (tk ee i)); [exact Gee|].
+            destruct (t_catch_done (tk ee i)) eqn:Ecd; [exact Gee|].
             destruct (match c with Some x => Nat.eqb x code | None => true end); [|exact Gee].
             pose proof Gee as [Jee Lee].
             assert (Herr : st ee i = SError).
@@ -421,15 +452,20 @@ Proof.
             set (ee1 := set_state 19 (set_catch_done ee i) i SRunning).
             assert (G19 : G e1 ee1).
             { eapply G_trans; [exact Gee|]. split.
-              - apply J_set_state; auto. rewrite Scd. reflexivity.
+              - apply J_revive; auto.
+                + unfold set_catch_done. rewrite tk_tmod, Nat.eqb_refl. simpl.
+                  destruct (Nat.ltb_spec i (length (tasks ee))) as [Hlt | Hge]; [reflexivity|].
+                  exfalso. apply st_oob in Hge. congruence.
+                + cbn [trace set_catch_done tmod with_tasks]. intros Hin.
+                  destruct Jee as ((_ & _ & _ & _ & (_ & HR2) & _) & _). apply HR2 in Hin. congruence.
               - unfold ee1. rewrite ntasks_set_state. unfold set_catch_done. rewrite ntasks_tmod. lia. }
             assert (R19 : i < ntasks ee1) by (destruct G19; lia).
             destruct (children_in (tnode ee1 i) (OCatch c)) as [|c0 cs].
             * eapply G_trans; [exact G19|]. apply IHr; auto. apply G19.
             * eapply G_trans; [exact G19|]. apply G_xext; [apply G19|]. now apply xext_sched_nodes. }
       assert (G2' : G e e2v) by (eapply G_trans; eauto).
-      destruct (msg_allowed e2v i); [|exact G2'].
-      eapply G_trans; [exact G2'|]. apply G_xext; [apply G2'|]. now apply xext_add_ev. }
+      destruct (msg_allowed e2v i) eqn:Ema; [|exact G2'].
+      eapply G_trans; [exact G2'|]. apply G_xext; [apply G2'|]. apply xext_add_ev; [reflexivity | now apply msg_allowed_ok]. }
     destruct k; try exact G3.
     destruct (is_completed (st e3v i)); [|exact G3].
     eapply G_trans; [exact G3|]. apply G_xext; [apply G3|].
